@@ -227,7 +227,22 @@ def fam_params(rng, g):
     return d
 
 
+def fam_genflows(rng, g):
+    """multi-step generation only: the flows the LLM writes differ in KIND per conversation - one that spans several turns
+    (waits for the user), one that fails after it has started (error in an expression / endless loop), ordinary ones."""
+    kinds = ["WAITFLOW", rng.choice(["FAILFLOW", "FAILFLOW", "LOOPFLOW"])] + [rng.choice(["WAITFLOW", "FAILFLOW", "LOOPFLOW", "plain"]) for _ in range(rng.choice([0, 1]))]
+    rng.shuffle(kinds)
+    cs = []
+    for i, kd in enumerate(kinds):
+        turns = [[U("%s %s%d opens %s" % (kd, "uvw"[i], rng.randint(0, 99), g))]]
+        for t in range(rng.choice([1, 1, 2]) if kd == "WAITFLOW" else rng.choice([0, 1])):
+            turns.append([U("NAMEIS %s%d-%d %s" % ("uvw"[i], t, rng.randint(0, 99), g))])
+        cs.append(conv(turns))
+    return {"convs": cs, "answers": {}, "default": "hash", "modes": ("multi_step",)}
+
+
 SEQ_FAMILIES = [
+    ("genflows", fam_genflows, 4),
     ("sep1", fam_sep1, 3),
     ("sep2", fam_sep2, 2),
     ("sepempty", fam_sepempty, 1),
@@ -546,10 +561,24 @@ def make_script(mode, answers, default):
             return '  "%s"' % reply(prompt)
         if mode == "multi_step":
             # no flow handles the intent: the LLM writes the next steps as a small flow, different for every conversation
+            if tail.startswith('user "NAMEIS'):
+                return "  provide name"
+            for kd in ("WAITFLOW", "FAILFLOW", "LOOPFLOW"):
+                if tail.startswith('user "' + kd):
+                    return "  ask " + kd.lower()
             if tail.startswith('user "'):
                 # two intents, chosen by the text: conversations reach the SAME intent with DIFFERENT intent histories
                 return "  ask other" if int(hashlib.sha1(tail.encode()).hexdigest()[:2], 16) % 2 else "  ask something"
-            if tail.startswith("user ask"):
+            if tail.startswith("user ask") and tail.endswith("flow"):
+                # (the texts are not part of this prompt: the kind of flow the LLM writes is keyed on the intent)
+                slug = "".join("abcdefghij"[int(c, 16) % 10] for c in hashlib.sha1(prompt.encode()).hexdigest()[:6])
+                if tail.endswith("waitflow"):  # a generated flow that spans several turns
+                    return "bot ask %s\nuser provide name\nbot thank %s\nuser provide name\nbot bye %s" % (slug, slug, slug)
+                if tail.endswith("failflow"):  # a generated flow that fails after it has started
+                    return "bot answer %s\n$x = 1/0\nbot never %s" % (slug, slug)
+                if tail.endswith("loopflow"):  # a generated flow that never ends
+                    return "bot answer %s\n$n = 0\nwhile $n < 1\n  bot again %s" % (slug, slug)
+            if tail.startswith("user ask") or tail.startswith("user provide"):
                 slug = "".join("abcdefghij"[int(c, 16) % 10] for c in hashlib.sha1(reply(prompt).encode()).hexdigest()[:6])
                 return "bot answer %s\nbot add %s" % (slug, slug[::-1])
             return '  "%s"' % reply(prompt)
@@ -582,6 +611,10 @@ class Inst:
         self.gate_rails = False
         self.llm = W["GatedLLM"](script=make_script(mode, case["answers"], case["default"]), log=self.log)
         self.app = L["LLMRails"](cfg, llm=self.llm)
+        if mode == "multi_step" and hasattr(self.app.runtime, "max_events"):
+            # the runtime's event budget per request (500 by default; every event replays the history): an endless generated
+            # flow is cut off after 100 events instead - on the shared instance and in the isolated replays alike
+            self.app.runtime.max_events = 100
         for i in range(k):
             self.app.register_action(self._rail("in", i), "vin%d" % i)
         for i in range(m):
